@@ -28,7 +28,9 @@ struct Common {
 fn common(tape: &[u8], id: &str, cfg: &ProgCfg, cx: &Cx) -> Result<(Common, Vec<u8>), Outcome> {
     let (ta, tb) = tape.split_at(tape.len() / 4);
     let mut tp = Tape::new(tb);
-    let prog = Prog::decode(&mut tp, &cfg.clone().scaled(cx.thorough));
+    // a sixth of the programs are C16's pattern pairs (concatenations of ranges and Sigma* with a derived
+    // near-included sibling, their union, wrappers): the shapes on which union pruning acts
+    let prog = if tp.bool_p(40) { crate::p_c16::gen_pair(&mut tp).0 } else { Prog::decode(&mut tp, &cfg.clone().scaled(cx.thorough)) };
     let mut o = Outcome::default();
     o.digest = fnv(&prog.digest_bytes());
     let mut case = match rx::setup(prog.clone()) {
@@ -522,4 +524,70 @@ pub fn run_c19(tape: &[u8], cx: &Cx) -> Outcome {
         o.tag(">=4-derivatives");
     }
     o
+}
+
+
+/// C19 scale cases: expressions with thousands of derivatives (work lists that release memory in blocks,
+/// visited sets that grow, counters): the literal a^L has exactly L + 2 derivatives (a^k for k <= L and the
+/// empty language), (ab)^L has 2L + 2.
+pub fn enumerate_c19(_thorough: bool, part: usize, parts: usize, sink: &mut crate::runner::EnumSink) {
+    use aws_smt_strings::regular_expressions::ReManager;
+    use aws_smt_strings::smt_strings::SmtString;
+    let cases: [(usize, bool); 6] = [(50, false), (4100, false), (6000, false), (20_000, false), (70_000, false), (5000, true)];
+    for (k, &(len, pairs)) in cases.iter().enumerate() {
+        if k % parts != part {
+            continue;
+        }
+        let mut o = Outcome::default();
+        let what = if pairs { format!("(ab)^{}", len) } else { format!("a^{}", len) };
+        let res = crate::runner::on_user_stack(|| {
+            catch(|| {
+                let mut fails: Vec<(String, String)> = Vec::new();
+                let mut m = ReManager::new();
+                let word: Vec<u32> = if pairs { (0..2 * len).map(|i| if i % 2 == 0 { 0x61 } else { 0x62 }).collect() } else { vec![0x61; len] };
+                let e = m.str(&SmtString::from(&word[..]));
+                let n = word.len() + 2;
+                let items: Vec<usize> = m.iter_derivatives(e).take(2 * n + 10).map(|r| r as *const _ as usize).collect();
+                let distinct: HashSet<usize> = items.iter().copied().collect();
+                if items.len() != n || distinct.len() != n || items.first() != Some(&(e as *const _ as usize)) {
+                    fails.push(("C19/closure-size".into(), format!("{}: iter_derivatives yields {} items, {} distinct; the expression has {} derivatives", what, items.len(), distinct.len(), n)));
+                    return fails;
+                }
+                for (b, exp_some) in [(n, true), (n - 1, false), (n + 1, true), (1, false)] {
+                    match m.try_compile(e, b) {
+                        Some(a) => {
+                            if !exp_some {
+                                fails.push(("C19/try_compile-exceeds-bound".into(), format!("{}: try_compile(e, {}) returned an automaton with {} states; e has {} derivatives", what, b, a.num_states(), n)));
+                            } else if a.num_states() != n || !a.accepts(&SmtString::from(&word[..])) || a.accepts(&SmtString::from(&word[1..])) {
+                                fails.push(("C19/state-count".into(), format!("{}: try_compile(e, {}) has {} states (expected {}) or the wrong language", what, b, a.num_states(), n)));
+                            }
+                        }
+                        None => {
+                            if exp_some {
+                                fails.push(("C19/try_compile-none-within-bound".into(), format!("{}: try_compile(e, {}) = None although e has {} derivatives", what, b, n)));
+                            }
+                        }
+                    }
+                }
+                let a = m.compile(e);
+                if a.num_states() != n {
+                    fails.push(("C19/state-count".into(), format!("{}: compile(e) has {} states, expected {}", what, a.num_states(), n)));
+                }
+                fails
+            })
+        });
+        match res {
+            Ok(fails) => {
+                for (c, msg) in fails.into_iter().take(2) {
+                    o.fail(&c, msg);
+                }
+            }
+            Err(msg) => o.fail("C19/panics", format!("{}: {}", what, msg)),
+        }
+        o.evals += 6;
+        sink.case(&o, true, || format!("scale case: {}", what));
+    }
+    if part == 0 {
+        sink.stats.exhaustive_spaces.push("6 scale cases: the literals a^50, a^4100, a^6000, a^20000, a^70000 and (ab)^5000: number and distinctness of the enumerated derivatives, try_compile at N-1 / N / N+1 / 1, compile".to_string());
+    }
 }
